@@ -33,11 +33,23 @@ impl Event {
         }
     }
 }
+/// The event log shared by the harness's store and user-validation implementations; it also
+/// carries an optional hook that `ScriptedUv` runs while the user step is pending (the world may
+/// change during the prompt).
 #[derive(Clone, Default)]
-pub struct Log(pub Arc<Mutex<Vec<Event>>>);
+pub struct Log(pub Arc<Mutex<Vec<Event>>>, pub Arc<Mutex<Option<Arc<dyn Fn() + Send + Sync>>>>);
 impl Log {
     pub fn new() -> Self {
         Self::default()
+    }
+    pub fn set_prompt_hook(&self, f: Arc<dyn Fn() + Send + Sync>) {
+        *self.1.lock().unwrap() = Some(f);
+    }
+    fn run_prompt_hook(&self) {
+        let h = self.1.lock().unwrap().clone();
+        if let Some(h) = h {
+            h();
+        }
     }
     pub fn push(&self, e: Event) {
         self.0.lock().unwrap().push(e)
@@ -188,13 +200,16 @@ pub struct RefStore {
     /// answer "nothing found" with Ok(empty list) instead of Err(NoCredentials) – both are
     /// legitimate for a store
     pub empty_ok: bool,
+    /// a sloppy store: lists every credential of the RP whatever ids were asked for (the library's
+    /// behaviour on such a store is not specified, but its two API paths must still agree)
+    pub ignore_ids: bool,
 }
 impl RefStore {
     pub fn new() -> Self {
-        Self { items: vec![], newest_first: true, cap: Cap::ForcedDiscoverable, empty_ok: false }
+        Self { items: vec![], newest_first: true, cap: Cap::ForcedDiscoverable, empty_ok: false, ignore_ids: false }
     }
     pub fn with(items: Vec<Passkey>) -> Self {
-        Self { items, newest_first: true, cap: Cap::ForcedDiscoverable, empty_ok: false }
+        Self { items, newest_first: true, cap: Cap::ForcedDiscoverable, empty_ok: false, ignore_ids: false }
     }
     /// records in insertion order (the `Inspect` trait gives them sorted by id)
     pub fn recs_ordered(&self) -> Vec<Rec> {
@@ -202,7 +217,7 @@ impl RefStore {
     }
     /// the reference answer of the lookup contract
     pub fn lookup(&self, ids: Option<&[PublicKeyCredentialDescriptor]>, rp_id: &str) -> Vec<Passkey> {
-        let mut v: Vec<Passkey> = self.items.iter().filter(|p| p.rp_id == rp_id && ids.map_or(true, |ids| ids.iter().any(|d| *d.id == *p.credential_id))).cloned().collect();
+        let mut v: Vec<Passkey> = self.items.iter().filter(|p| p.rp_id == rp_id && (self.ignore_ids || ids.map_or(true, |ids| ids.iter().any(|d| *d.id == *p.credential_id)))).cloned().collect();
         if self.newest_first {
             v.reverse();
         }
@@ -411,6 +426,38 @@ impl<S: Inspect> Inspect for FailValue<S> {
     }
 }
 
+/// Hands every located credential back with the members of its COSE key in reverse order (a COSE
+/// key is a map: a persistence layer may legitimately re-order it, e.g. d, y, x, crv).
+#[derive(Clone)]
+pub struct ReorderKeys<S> {
+    pub inner: S,
+}
+#[async_trait::async_trait]
+impl<S: CredentialStore<PasskeyItem = Passkey> + Send + Sync> CredentialStore for ReorderKeys<S> {
+    type PasskeyItem = Passkey;
+    async fn find_credentials(&self, ids: Option<&[PublicKeyCredentialDescriptor]>, rp_id: &str) -> Result<Vec<Passkey>, StatusCode> {
+        let mut v = self.inner.find_credentials(ids, rp_id).await?;
+        for p in v.iter_mut() {
+            p.key.params.reverse();
+        }
+        Ok(v)
+    }
+    async fn save_credential(&mut self, cred: Passkey, user: PublicKeyCredentialUserEntity, rp: PublicKeyCredentialRpEntity, options: Options) -> Result<(), StatusCode> {
+        self.inner.save_credential(cred, user, rp, options).await
+    }
+    async fn update_credential(&mut self, cred: Passkey) -> Result<(), StatusCode> {
+        self.inner.update_credential(cred).await
+    }
+    async fn get_info(&self) -> StoreInfo {
+        self.inner.get_info().await
+    }
+}
+impl<S: Inspect> Inspect for ReorderKeys<S> {
+    fn recs(&self) -> Vec<Rec> {
+        self.inner.recs()
+    }
+}
+
 /// Suspends `before` times before and `after` times after each call of the inner store.
 pub struct Yielding<S> {
     pub inner: S,
@@ -531,6 +578,7 @@ impl UserValidationMethod for ScriptedUv {
     type PasskeyItem = Passkey;
     async fn check_user<'a>(&self, credential: Option<&'a Passkey>, presence: bool, verification: bool) -> Result<UserCheck, Ctap2Error> {
         let cred = credential.map(|c| c.credential_id.to_vec());
+        self.log.run_prompt_hook();
         yield_n(self.yields).await;
         let (r, logged) = match self.outcome {
             UvOutcome::Ok { presence: p, verification: v } => (Ok(UserCheck { presence: p, verification: v }), Ok((p, v))),
